@@ -30,6 +30,7 @@ test; each is a constructor switch, each application is counted in `profile_coun
 from __future__ import annotations
 
 import datetime
+import functools
 import ipaddress
 import math
 from dataclasses import dataclass, field
@@ -42,6 +43,7 @@ DEFAULT_PORTS = {"http": 80, "https": 443, "ws": 80, "wss": 443}
 # URLs (only the shapes the monitors generate: scheme://host[:port]/path[?query])
 
 
+@functools.lru_cache(maxsize=4096)
 def split_url(url: str):
     """-> (scheme, canonical host, port, path).  IPv6 literals lose their brackets."""
     scheme, sep, rest = url.partition("://")
@@ -83,6 +85,7 @@ def canonical_host(host: str) -> str:
     return host.lower()
 
 
+@functools.lru_cache(maxsize=4096)
 def is_ip(host: str) -> bool:
     try:
         ipaddress.ip_address(host)
@@ -298,6 +301,9 @@ class Cookie:
     set_by_host: str
     set_at: float
     boundary: bool = False  # filled in by cookies_for(): expiry == now
+    born_epoch: int = -1  # store.epoch (the driver's operation counter) when stored / removed
+    died_epoch: int | None = None
+    died_reason: str = ""
 
     @property
     def key(self):
@@ -334,6 +340,7 @@ class RefCookieStore:
         self.secure_origins = frozenset(secure_origins)  # {(scheme, host, port)}
         self.cookies: dict = {}  # (name, domain, path) -> Cookie
         self._seq = 0
+        self.epoch = 0  # set by the driver: index of the operation being executed (for history analysis only)
         self.profile_counts: dict[str, int] = {}
         self.removed_log: list = []  # (Cookie, reason, detail) in order of removal
 
@@ -345,6 +352,7 @@ class RefCookieStore:
 
     def _remove(self, c: Cookie, reason: str, detail=None) -> None:
         del self.cookies[c.key]
+        c.died_epoch, c.died_reason = self.epoch, reason
         self.removed_log.append((c, reason, detail))
 
     def evict_expired(self) -> list:
@@ -423,6 +431,7 @@ class RefCookieStore:
         old = self.cookies.get(c.key)
         self._seq += 1
         c.creation = self._seq
+        c.born_epoch = self.epoch
         if old is not None:
             c.creation = old.creation
             self._remove(old, "replaced", c.value)
